@@ -8,18 +8,19 @@ From Falcon Require Import IL.Expr.
 Local Open Scope Z_scope.
 
 (* [U] the representation invariant holds after ANY sequence of stores and set_permissions issued
-   through the API (u64 addresses, trimmed constants of < 2^63 bits) on a fresh memory that does
-   not panic (a panic = a store whose range reaches 2^64); rejected stores leave the memory as is *)
+   through the API (u64 addresses, trimmed constants of < 2^63 bits) on a fresh memory; stores the
+   implementation rejects (bad width, range beyond 2^64) leave the memory as it was; the only
+   remaining panics are set_permissions ranges beyond 2^64 *)
 Theorem inv_preserved : forall e b ops m, back_ok b -> Forall op_ok ops ->
   run (mnew e b) ops = Ok m -> InvM m /\ back_ok (m_back m).
 Proof. intros e b ops m Hb F E. exact (run_good ops (mnew e b) m (good_new e b Hb) F E). Qed.
 Print Assumptions inv_preserved.
 
 (* [U] store: every memory satisfying the invariant, every address, every constant of k >= 1 bytes
-   with a + k < 2^64, both endiannesses, any page crossing / overlap: no error, invariant preserved,
+   with a + k <= 2^64 (a write may end exactly at the top of the address space), both endiannesses, any page crossing / overlap: no error, invariant preserved,
    backing/endianness/page permissions untouched, byte array := write of the k bytes *)
 Theorem abs_store : forall (m : @mem const) a v,
-  InvM m -> back_ok (m_back m) -> wfv v -> 0 <= a -> a + vk v < 2^64 ->
+  InvM m -> back_ok (m_back m) -> wfv v -> 0 <= a -> a + vk v <= 2^64 ->
   exists m', Paged.store COps m a v = Ok m' /\ InvM m' /\ frame m m' /\
      forall x, mabs m' x = store_spec (m_end m) (mabs m) a v x.
 Proof. exact abs_store_l. Qed.
@@ -95,9 +96,9 @@ Proof. exact store_refines. Qed.
 Print Assumptions cells_store_refines.
 
 (* [U] THE PROPERTY OVER HISTORIES.  After any sequence of stores (any width of k >= 1 bytes, any
-   overlap, any page crossing; stores of a bad width are rejected and change nothing) and
-   set_permissions calls issued through the API on a fresh memory, which runs without panicking
-   (no store range reaches 2^64), a load of n >= 1 bytes at any a with a + n <= 2^64 returns exactly
+   overlap, any page crossing, ranges ending at 2^64 included; stores of a bad width or reaching
+   beyond 2^64 are rejected and change nothing) and set_permissions calls issued through the API on
+   a fresh memory, a load of n >= 1 bytes at any a with a + n <= 2^64 returns exactly
    the bytes most recently stored at each address, falling back to the backing's bytes (byte_at over
    the log of accepted stores), assembled in the memory's endianness, and None iff some byte was
    never stored nor backed *)
@@ -137,10 +138,13 @@ Theorem expr_abs_load : forall (me : @mem expr) (mc : @mem const) a n,
 Proof. exact expr_abs_load_l. Qed.
 Print Assumptions expr_abs_load.
 
-(* the open finding as a witness (outside the hypotheses above): a one-byte store at the last
-   address panics in an overflow-checked build although no byte of it wraps *)
-Example store_ending_at_top_panics : Paged.store COps (mnew LE None) (2^64 - 1) (mkc 8 1) = Panic.
-Proof. exact store_top_panics. Qed.
+(* the top of the address space (repaired code): a store ending exactly at 2^64 succeeds and is read
+   back; a store reaching beyond it is rejected with an error, not a panic *)
+Example store_at_top : 
+  (m <- Paged.store COps (mnew LE None) (2^64 - 4) (mkc 32 287454020) ;; load COps m (2^64 - 2) 16)
+  = Ok (Some (mkc 16 4386)) /\
+  Paged.store COps (mnew LE None) (2^64 - 3) (mkc 32 1) = Err ECustom.
+Proof. exact (conj store_at_top_ok store_past_top_err). Qed.
 
 (* the hypotheses are satisfiable: a fresh memory over any well-formed backing satisfies them *)
 Example fresh_memory_good : forall e, InvM (mnew e None : @mem const) /\ back_ok None.
